@@ -238,6 +238,26 @@ Definition noc_plus (h : heap) (i : nat) (x : operand) : heap * res nat :=
       end
   end.
 
+(* NamedObjectCollection(objs=[...], obj_type=ty): ObjectCollection.__init__
+   adds the given objects one by one through self.add; a rejected object
+   raises out of the constructor, no collection comes into existence (the
+   cells allocated so far are garbage) *)
+Fixpoint add_each (h : heap) (c : nat) (s : list obj) : heap * res unit :=
+  match s with
+  | [] => (h, Ok tt)
+  | o :: t => match noc_add h c (OpObj o) with
+              | (h', Ok _) => add_each h' c t
+              | (h', Err e) => (h', Err e)
+              end
+  end.
+
+Definition noc_new_from (h : heap) (ty : cls) (s : list obj) : heap * res nat :=
+  let (h1, c) := noc_new h ty in
+  match add_each h1 c s with
+  | (h2, Ok _) => (h2, Ok c)
+  | (h2, Err e) => (h2, Err e)
+  end.
+
 (* ------------------------------------------------------------------ *)
 (* accessors *)
 Definition noc_len (h : heap) (i : nat) : res Z :=
@@ -272,6 +292,7 @@ Definition noc_getitem_idx (h : heap) (i : nat) (ix : Z) : res obj :=
 (* histories *)
 Inductive op :=
 | ONew (ty : cls)
+| ONewSeq (ty : cls) (s : list obj)   (* NamedObjectCollection(objs=s, obj_type=ty) *)
 | OAdd (i : nat) (x : operand)      (* c.add(x), c += x *)
 | OPop (i : nat) (k : popkey)
 | OPlus (i : nat) (x : operand).    (* c + x *)
@@ -281,6 +302,8 @@ Inductive retval := RNone | RObj (o : obj) | RLoc (c : nat).
 Definition step (h : heap) (o : op) : heap * res retval :=
   match o with
   | ONew ty => let (h', c) := noc_new h ty in (h', Ok (RLoc c))
+  | ONewSeq ty s => match noc_new_from h ty s with
+                    | (h', Ok c) => (h', Ok (RLoc c)) | (h', Err e) => (h', Err e) end
   | OAdd i x => match noc_add h i x with
                 | (h', Ok _) => (h', Ok RNone) | (h', Err e) => (h', Err e) end
   | OPop i k => match noc_pop h i k with
@@ -309,7 +332,7 @@ Fixpoint dsc_add (c : dsc) (ds : list obj) : dsc * res unit :=
   | [] => (c, Ok tt)
   | o :: t =>
       if negb (issub (ocls o) CBase) then (c, Err TypeError)
-      else if od_mem c (oname o) then (c, Err KeyError)
+      else if dsc_dup_check (oname o) (od_keys c) then (c, Err KeyError)
       else dsc_add (od_set c (oname o) o) t
   end.
 
@@ -342,7 +365,8 @@ Inductive xop :=
 | XPlusY                    (* x, y, z = x + y, x, y *)
 | XPlusX                    (* x, y, z = x + x, x, y *)
 | XPlusSeq (s : list obj)   (* x, y, z = x + [..], x, y *)
-| XRot.                     (* x, y, z = y, z, x *)
+| XRot                      (* x, y, z = y, z, x *)
+| XNewSeq (s : list obj).   (* x, y, z = NamedObjectCollection(s, obj_type=Base), x, y *)
 
 Definition errcode (e : err) : Z :=
   match e with
@@ -371,6 +395,8 @@ Definition xstep (h : heap) (v : vars) (o : xop) : heap * vars * Z :=
   | XPlusX => pluslike (OpColl (vx v))
   | XPlusSeq s => pluslike (OpSeq s)
   | XRot => (h, mkvars (vy v) (vz v) (vx v), 0)
+  | XNewSeq s => match noc_new_from h CBase s with
+                 | (h', Ok c) => (h', shift v c, 50) | (h', Err e) => (h', v, - errcode e) end
   end.
 
 (* canonical observation of one collection: length, object ids in order,
@@ -435,7 +461,7 @@ Definition used_after (used : Z) (o : xop) : Z :=
   let mx l := fold_left Z.max (map (fun ob => oid ob + 1) l) used in
   Z.min 5 (match o with
            | XAdd ob | XPlusO ob => mx [ob]
-           | XIaddSeq s | XPlusSeq s => mx s
+           | XIaddSeq s | XPlusSeq s | XNewSeq s => mx s
            | _ => used
            end).
 
